@@ -569,6 +569,25 @@ def run_program(ctx, mon, rng, pid, nsteps, record=None):
             ctx.fail("cache_api_raises", {"program": pid, "step": si, "record": step, "config": prog.config}, f"{step['op']} raised {r!r} under cache configuration {prog.config}")
         if step["op"] == "cache_configure" and not isinstance(r, Exc):
             prog.config = repr(sorted(step["kw"].items()))
+            # what a cache_configure(**kw) call leaves behind is a function of kw alone (omitted sizes mean the documented defaults,
+            # not "whatever the call before configured")
+            kw_ = step["kw"]
+            dep = [kw_[k] for k in ("ip_address_size", "host_validate_size") if k in kw_]
+            if "encode_host_size" in kw_ and kw_["encode_host_size"] is None or None in dep:
+                want_host = None
+            elif "encode_host_size" not in kw_:
+                want_host = max(dep) if dep else 512
+            else:
+                want_host = max(dep + [kw_["encode_host_size"]])
+            want_sizes = (kw_.get("idna_encode_size", 256), kw_.get("idna_decode_size", 256), want_host)
+            import yarl as _yarl
+
+            info = _yarl.cache_info()
+            got_sizes = (info["idna_encode"].maxsize, info["idna_decode"].maxsize, info["encode_host"].maxsize)
+            ctx.count("cache_configure_sizes_checked")
+            if got_sizes != want_sizes:
+                ctx.fail("history_dependent_outcome", {"program": pid, "step": si, "record": step, "config": prog.config},
+                         f"cache_configure(**{kw_}) left (idna_encode, idna_decode, encode_host) maxsize = {got_sizes}, its arguments mean {want_sizes}", fields=["cache_configure_sizes"])
         if owned:
             # the result is published (its cache snapshot taken): now the caller re-uses the containers it passed in
             _scramble(owned)
